@@ -41,6 +41,7 @@ def run(idx: Index, rep: Report, tier: str):
                "capping groups of several atoms (rotation by scipy) are not decided")
     check_mi_summation(idx, rep)
     check_oniom_sum(idx, rep)
+    check_fragment_build(idx, rep)
     check_link_placement(idx, rep)
     check_dmet_rebuild(idx, rep)
 
@@ -154,6 +155,45 @@ def check_oniom_sum(idx: Index, rep: Report):
                        reason=f"folds to {got}")
 
 
+def check_fragment_build(idx: Index, rep: Report):
+    """Fragment.build folded with the molecule constructor and the solver factory replaced by probes: the low-level molecule is built from the
+    low level's own basis and frozen orbitals, the high-level molecule from the high level's own - also when both levels share the basis and
+    differ only in the frozen orbitals (the 'model is the whole system' identity needs the requested high-level calculation, not a reused one)."""
+    rule = "K9.oniom-sum"
+    res = module_resolver(idx, HELP)
+    frag_cls = res("Fragment")
+    bld = idx.function(f"{HELP}::Fragment.build")
+    cases = [("different bases", {"basis": "sto-3g"}, {"basis": "6-31g"}),
+             ("same basis, high level with frozen orbitals", {"basis": "sto-3g"}, {"basis": "sto-3g", "frozen_orbitals": [0]}),
+             ("same basis, different frozen orbitals", {"basis": "sto-3g", "frozen_orbitals": [0, 1]}, {"basis": "sto-3g", "frozen_orbitals": [0]}),
+             ("identical options", {"basis": "sto-3g", "frozen_orbitals": None}, {"basis": "sto-3g", "frozen_orbitals": None})]
+    for label, lo, hi in cases:
+        frag = Rec("Fragment", {"solver_low": "HF", "solver_high": "CCSD", "options_low": dict(lo), "options_high": dict(hi), "mol_low": None, "mol_high": None})
+        frag.cls_val = frag_cls
+
+        class _MolProbe:
+            _sa_model = True
+
+            def __init__(self, basis, frozen):
+                self.basis, self.frozen = basis, frozen
+
+        def get_mol(obj, args, kwargs):
+            return _MolProbe(args[0], args[2] if len(args) > 2 else kwargs.get("frozen"))
+        fo = make_folder(idx, HELP, ctors={("Fragment", "get_mol"): get_mol, ("Fragment", "get_solver"): lambda obj, a, k: ("solver", a[1]),
+                                           "get_default_integral_solver": lambda a, k: (lambda *x: "INTSOLVER")})
+        try:
+            fo.call_funcval(FuncVal(bld.node, bound_self=frag, home=HELP), [], {"integral_solver": "INTSOLVER"})
+        except (Undecidable, Raised) as e:
+            raise AnalysisError(f"Fragment.build not foldable ({label}): {e}")
+        ml, mh = frag.fields["mol_low"], frag.fields["mol_high"]
+        ok = isinstance(ml, _MolProbe) and isinstance(mh, _MolProbe) and (ml.basis, ml.frozen) == (lo["basis"], lo.get("frozen_orbitals")) and \
+            (mh.basis, mh.frozen) == (hi["basis"], hi.get("frozen_orbitals"))
+        rep.decide(ok, rule, bld, bld.node, text=f"Fragment.build, {label}: each level gets a molecule built from its own basis and frozen orbitals",
+                   what="the high-level energy of a fragment is computed on the molecule the high level asked for (its own basis and frozen orbitals)",
+                   reason=f"low-level molecule ({getattr(ml, 'basis', ml)}, {getattr(ml, 'frozen', None)}), high-level molecule ({getattr(mh, 'basis', mh)}, {getattr(mh, 'frozen', None)}); "
+                          f"requested ({lo['basis']}, {lo.get('frozen_orbitals')}) and ({hi['basis']}, {hi.get('frozen_orbitals')})")
+
+
 # ---------------------------------------------------------------------------------------------------
 class _Vec:
     """a coordinate vector / a stack of them with symbolic entries: +, -, scalar *, row access, broadcasting in-place +"""
@@ -255,12 +295,16 @@ def check_dmet_rebuild(idx: Index, rep: Report):
     rep.floor("molecule data set by mol_to_pyscf from arguments DMET passes", len(required), 4)
     # what the rebuild sets
     new_var = None
+    rebuilt = {}
     for n in ast.walk(init.node):
-        if isinstance(n, ast.Assign) and isinstance(n.value, ast.Call) and norm(n.value.func).endswith("Mole") and isinstance(n.targets[0], ast.Name):
+        if isinstance(n, ast.Assign) and isinstance(n.value, ast.Call) and (norm(n.value.func).endswith("Mole") or norm(n.value.func) in ("gto.M", "pyscf.gto.M", "M")) \
+                and isinstance(n.targets[0], ast.Name):
             new_var = n.targets[0].id
+            for k in n.value.keywords:
+                if k.arg:
+                    rebuilt[k.arg] = norm(k.value)
     if new_var is None:
         raise AnalysisError("DMET: molecule rebuilt for re-ordered atoms not found")
-    rebuilt = {}
     for n in ast.walk(init.node):
         if isinstance(n, ast.Assign) and isinstance(n.targets[0], ast.Attribute) and norm(n.targets[0].value) == new_var:
             rebuilt[n.targets[0].attr] = norm(n.value)
